@@ -14,6 +14,7 @@ lexer model (`Model/ImportLex.lean`) says, and spirit's own memory safety — bo
 are exercised by the correspondence under ASan/UBSan only.
 -/
 import SharkVerif.Lemmas.Import
+import SharkVerif.Lemmas.Peg
 namespace SharkVerif.C19
 open SharkVerif.Import SharkVerif.Import.Svm
 
@@ -487,6 +488,35 @@ theorem csv_roundtrip_regression (pts : List (List V × List V)) (labelFirst : B
       cases labelFirst
       · simp [← hi, ← ho]
       · simp [← ho]
+
+/-! ## the parsers never hang -/
+
+open SharkVerif.Peg in
+/-- **C19, "never hang" for the model of the `phrase_parse` grammars.**  The PEG interpreter
+(`Model/Peg.lean`) reports `Res.hang` exactly when a `*`, `+` or `%` loop of boost::spirit would
+iterate without consuming input (an infinite loop in the C++).  For the eight grammars of
+`Csv.cpp` / `SparseData.cpp`, every separator, every comment character and every input, that
+never happens: each loop body consumes at least one character per successful iteration
+(`Lemmas/Peg.lean`: `parse_no_hang` by induction over the grammar, `real_len` etc. for the
+numeric lexers).  What is not proved: that spirit implements these operators as modelled. -/
+theorem parser_total (bytes : List Char) (sep comment : Char) :
+    phraseParse rowsWs (csvSkipper comment) bytes ≠ .hang ∧
+    phraseParse (rowsSep sep) (csvSkipper comment) bytes ≠ .hang ∧
+    phraseParse pointsFirstWs (csvSkipper comment) bytes ≠ .hang ∧
+    phraseParse (pointsFirstSep sep) (csvSkipper comment) bytes ≠ .hang ∧
+    phraseParse pointLastWs (csvSkipper comment) bytes ≠ .hang ∧
+    phraseParse (pointLastSep sep) (csvSkipper comment) bytes ≠ .hang ∧
+    phraseParse pointLastWsCurrent (csvSkipper comment) bytes ≠ .hang ∧
+    phraseParse svmLineG .space bytes ≠ .hang := by
+  refine ⟨?_, ?_, ?_, ?_, ?_, ?_, ?_, ?_⟩ <;> exact phraseParse_no_hang _ _ (by rfl) _
+
+open SharkVerif.Peg in
+/-- the hypothesis of `parse_no_hang` is not vacuous and not trivial: `*eps`-like grammars are rejected -/
+example : wfG (.star (.opt .real)) = false ∧ wfG (rowsSep ',') = true := by decide
+
+open SharkVerif.Peg in
+/-- and such a grammar does hang in the interpreter (as `*(-double_)` would in spirit) -/
+example : parse id (.star (.opt .real)) ['x'] = .hang := by decide
 
 /-! ### witnesses: what the current code does without the hypothesis (DESIGN §7 F2) -/
 
